@@ -48,6 +48,10 @@ type Object struct {
 	ID    int
 	Val   Value
 	Label string
+	// Proc: the object is per-process state (a package-level variable, memory allocated by a
+	// package initialiser, or memory marked with zz.ProcessState): it survives from one
+	// message to the next and is lost on restart, so handlers must not write to it
+	Proc bool
 }
 
 // PtrV points into an object along a path of field/element indices. Obj == nil is nil.
